@@ -522,6 +522,11 @@ pub fn run(args: &Args) -> i32 {
                         let mut rng = unit_rng(args.seed, 6, n, rep);
                         check_hamming(&mut rng, n, &policy, false, &mut out);
                     }
+                    if rep == 0 && (n == 1100 || n == 17) && report.want_sample() {
+                        report.sample(json!({"type": TYPES[ty], "length": n, "shape": SHAPES[((n as u64 + ty as u64) % SHAPES.len() as u64) as usize],
+                            "values_judged": out.counters.get("values_judged"), "policy_checks": out.counters.get("policy_checks"),
+                            "not_judged_out_of_f32_range": out.counters.get("values_out_of_f32_range_not_judged"), "failures": out.failures.len()}));
+                    }
                     flush(&report, out, json!({"engine":"paths","seed":args.seed,"ty":ty,"type":TYPES[ty],"n":n,"rep":rep}));
                 }
                 lengths_done.fetch_add(1, Ordering::Relaxed);
@@ -564,6 +569,5 @@ pub fn run(args: &Args) -> i32 {
         }
     });
     let _ = (PrimitiveArray::<Float32Type>::from(vec![0f32]).len(), DataType::Float16, std::marker::PhantomData::<(Float16Type, Float64Type, UInt8Type)>);
-    report.sample(json!({"example": "f32 n=1100 uniform: l2 / dot / cosine via 25 entry points, batch of 1-4 vectors, Arrow FSL sliced with nulls; see counters values_judged / policy_checks"}));
     report.finish()
 }
